@@ -13,6 +13,7 @@ def run(ctx):
     ctx.tlc_mc(fam, "MuxCache", "MuxCache_MC_bug.cfg", workers=1, expect_violation="Coherent")
     ctx.tlc_mc(fam, "MuxCache", "MuxCache_MC_bug_split.cfg", workers=1, expect_violation="InOrder")
     ctx.tlc_mc(fam, "MuxCache", "MuxCache_MC_bug_add.cfg", workers=1, expect_violation="AddDup")
+    ctx.tlc_mc(fam, "MuxCache", "MuxCache_MC_bug_addfast.cfg", workers=1, expect_violation="AddDup")
     if ctx.thorough:
         ctx.tlc_mc(fam, "MuxCache", "MuxCache_MC_bug_utl.cfg", workers=1, expect_violation="Coherent")
         ctx.tlc_mc(fam, "MuxCache", "MuxCache_MC_bug_del.cfg", workers=1, expect_violation="Coherent")
